@@ -250,6 +250,10 @@ static void parse_case(const char *path)
 				op->kind = OP_END;
 			else if (!strcmp(kind, "abort"))
 				op->kind = OP_ABORT;
+			else if (!strcmp(kind, "post") || !strcmp(kind, "wait")) {
+				op->kind = !strcmp(kind, "post") ? OP_POST : OP_WAIT;
+				op->arg = strdup(rest);
+			}
 			else {
 				fprintf(stderr, "bad op: %s\n", p);
 				exit(2);
